@@ -142,7 +142,6 @@ impl ElfSection<'_> {
 //@extract multiboot2/src/elf_sections.rs :: impl ElfSection<'_> :: fn get
 //@  ret r
 //@  rules R2c
-//@  rewrite /s => panic!\("Unexpected entry size: \{\}", s\),/ => /s => controlled_panic(),/
 //@  prologue proof { assert(size_of::<ElfSectionInner32>() == 40 && align_of::<ElfSectionInner32>() == 1 && size_of::<ElfSectionInner64>() == 64 && align_of::<ElfSectionInner64>() == 1); }
 //@  spec:
 //@    requires self.wf(), panics_allowed(),
